@@ -1251,8 +1251,19 @@ def run(tier, seed):
             style, OPNAME.get(opk.split("@")[0], opk.split("@")[0]) + ("@stale" if "@" in opk else ""), aspect, what, kind, level, proxy, family, mode, ";".join(op_text(o) for o in hist) or "-")
         B.violation(clause=clause, witness=witness, detail=" | ".join(details),
                     replay=make_replay(cfg, hist, aspect, clause, witness))
+    # ---- family MX: list-style in-place edits (also on DICT-declared objects, where they leave the names out of step
+    #      with the list) followed by assignments on every route: membership is checked against the CURRENT objects
+    from bounded import c18_mixed
+    c18_mixed.run_family(B, PROP, tier, seed, NWORKERS)
+    B.bound += ("; FAMILY MX (bounded/c18_mixed.py): {Selector,ListSelector} x {dict,list}-declared x {class,instance}-level, "
+                "all histories of %d list-style in-place edits ([i]=, [a:b]=, append, insert, extend, pop, remove, clear -- on "
+                "dict-declared objects too) on the 8 core configurations (%d on the 32 one-dimension variants: held proxy / "
+                "check_on_set=True / allow_None declared), after every edit the list view and one assignment per route "
+                "(instance, constructor keyword, class, update, deserialize-then-update, untouched older instance) of every "
+                "object seen + a never-member" % c18_mixed.DEPTHS[tier][:2])
     B.note("style-inconsistent operations (append/insert/extend/[i]= on dict-declared objects, key operations on "
-           "list-declared objects), duplicate objects, check_on_set=False on dict-declared objects (the name of an "
+           "list-declared objects: names / items() / get_range() after them; only the list view and the accepted values are "
+           "claimed there, family MX), duplicate objects, check_on_set=False on dict-declared objects (the name of an "
            "auto-added object is not settled), objects.update(**kw) without a positional argument (not in ListProxy's "
            "signature) and failing operations (pop from empty, missing key) are outside the statement's quantifier "
            "and are not enumerated")
